@@ -159,6 +159,9 @@ func (rn *runner) hread(actor string, rd Read, quiescent bool) *simcore.Violatio
 	if v != nil {
 		return v
 	}
+	if tail > 0 {
+		rn.probe("history-tail-pruned")
+	}
 	overlapped := rn.opStarted != doneAtInv
 	recovered := rn.recStarted != recAtInv || rn.recStarted != rn.recDone
 	id, readable := rn.historicReadable(st.root, tail)
